@@ -56,7 +56,7 @@ func c15mTotal(rm *metricdata.ResourceMetrics) int64 {
 }
 
 var c15mOps = []string{"AddNew", "AddOld", "Collect", "Flush", "Shutdown", "ShutdownC", "ReaderShutdown"}
-var c15mVariants = []string{"manual", "periodic(E)"}
+var c15mVariants = []string{"manual", "periodic(E)", "periodic(E)+periodic(E2)"}
 
 func c15mSeq(variant string, ops []string) func(x *sched.Exec) {
 	return func(x *sched.Exec) {
@@ -71,7 +71,17 @@ func c15mSeq(variant string, ops []string) func(x *sched.Exec) {
 			pr := NewPeriodicReader(exp)
 			rd, collect = pr, func(rm *metricdata.ResourceMetrics) error { return pr.Collect(ctx, rm) }
 		}
-		mp := NewMeterProvider(WithReader(rd))
+		popts := []Option{WithReader(rd)}
+		// second reader of the two-reader variant: only the provider's Shutdown reaches it
+		exp2 := &c15mExp{}
+		var pr2 *PeriodicReader
+		if variant == "periodic(E)+periodic(E2)" {
+			pr2 = NewPeriodicReader(exp2)
+			popts = append(popts, WithReader(pr2))
+		}
+		provShut := false // the provider is shut down: a provider Shutdown returned nil, or a repeated one said "already shut down"
+		provTried := false
+		mp := NewMeterProvider(popts...)
 		oldC, _ := mp.Meter("old").Int64Counter("c")
 		var added int64     // measurements made while the provider was certainly live
 		shutOK := false     // some provider/reader Shutdown returned nil
@@ -130,6 +140,12 @@ func c15mSeq(variant string, ops []string) func(x *sched.Exec) {
 				} else {
 					err = mp.Shutdown(c)
 				}
+				if op != "ReaderShutdown" {
+					if err == nil || (errors.Is(err, ErrReaderShutdown) && provTried) {
+						provShut = true
+					}
+					provTried = true
+				}
 				if err == nil {
 					shutOK, readerShut = true, true
 				} else if errors.Is(err, ErrReaderShutdown) && shutTried {
@@ -151,8 +167,22 @@ func c15mSeq(variant string, ops []string) func(x *sched.Exec) {
 			if shutOK && variant != "manual" && exp.shuts != 1 {
 				x.Fail("C15|registered-processor-not-shut-down-after-successful-Shutdown|metrics", "a Shutdown returned nil; the periodic reader's exporter was shut down %d times (%s)", exp.shuts, where(i))
 			}
-			if exp.afterSD > 0 {
+			if exp.afterSD > 0 || exp2.afterSD > 0 {
 				x.Fail("C15|export-after-exporter-shutdown|metrics", "periodic reader exported after shutting its exporter down (%s)", where(i))
+			}
+			if pr2 != nil {
+				if exp2.shuts > 1 {
+					x.Fail("C15|shut-down-more-than-once|metrics", "the second reader's exporter Shutdown was called %d times (%s)", exp2.shuts, where(i))
+				}
+				if provShut {
+					if exp2.shuts != 1 {
+						x.Fail("C15|registered-processor-not-shut-down-after-successful-Shutdown|metrics|second reader", "the provider is shut down; the second periodic reader's exporter was shut down %d times (%s)", exp2.shuts, where(i))
+					}
+					var rm metricdata.ResourceMetrics
+					if err := pr2.Collect(ctx, &rm); !errors.Is(err, ErrReaderShutdown) {
+						x.Fail("C15|collect-after-shutdown|metrics|second reader", "the provider is shut down; Collect on its second reader returned %v, documented: ErrReaderShutdown (%s)", err, where(i))
+					}
+				}
 			}
 			if readerShut && exp.exports != e0 && !strings.HasPrefix(op, "Shutdown") && op != "ReaderShutdown" {
 				x.Fail("C15|telemetry-after-shutdown|metrics", "%s after Shutdown had returned nil caused an export (%s)", op, where(i))
